@@ -20,23 +20,30 @@ func init() {
 	lib.Register(&c12{base{
 		id: "C12", level: "exploration",
 		technique: "runtime snapshot monitor: before every call the instance, the ($ref-free) schema object, the raw bytes and the parsed specification are deep-snapshotted (independent second decoding + JSON text); after the call the live objects are compared with the snapshots by reflect.DeepEqual and by JSON text",
-		rule: "schema-level cases (5 of 6): $ref-free schemas with defaults from the draft-4 grammar x schema-derived and free instances through AgainstSchema, NewSchemaValidator with and without recycling, and parameter/header validators over typed slices; spec-level cases (1 of 6): generated clean specifications and accepted fixtures through Spec and SpecValidator.Validate in both continue-on-errors modes, comparing doc.Raw() bytes and, for accepted documents without self-referential definitions, doc.Spec(); distinct = FNV-64 of the inputs; non-trivial = the input contains a container (object/array/slice) the callee could write into and, for schemas, at least one default",
+		rule: "schema-level and parameter/header cases (17 of 18): $ref-free schemas with defaults from the draft-4 grammar x schema-derived and free instances through AgainstSchema, NewSchemaValidator with and without recycling, and parameter/header validators over typed slices; spec-level cases (1 of 18): generated clean specifications and accepted fixtures through Spec and SpecValidator.Validate in both continue-on-errors modes, comparing doc.Raw() bytes and, for accepted documents without self-referential definitions, doc.Spec(); distinct = FNV-64 of the inputs; non-trivial = the input contains a container (object/array/slice) the callee could write into and, for schemas, at least one default",
 		assumptions: []string{
 			"post.ApplyDefaults / post.Prune are not called (they mutate by contract)",
 			"schemas with $ref are excluded from the schema clause (the expander rewrites them in place by design), as the property states",
 			"sampled input space",
 		},
-		quick: 120000, thorough: 3000000,
+		quick: 9000, thorough: 180000,
 	}})
 }
 
 func (p *c12) Init(w *lib.Worker) error { return nil }
 
-func (p *c12) Chunk(tier string) int {
-	if tier == "thorough" {
-		return 30000
+func (p *c12) Finish(a *lib.Aggregate) (broken []string) {
+	if a.Tags["accepted-and-compared"] == 0 {
+		broken = append(broken, "no accepted specification was compared before/after")
 	}
-	return 3000
+	if a.Tags["schema-level"] == 0 || a.Tags["simple-level"] == 0 {
+		broken = append(broken, "schema-level or simple-level cases missing")
+	}
+	return
+}
+
+func (p *c12) Chunk(tier string) int {
+	return 100
 }
 
 func jsonText(v any) string {
@@ -61,10 +68,10 @@ func hasContainer(v any) bool {
 }
 
 func (p *c12) Run(w *lib.Worker, idx int, r *lib.Rand) lib.Case {
-	switch idx % 6 {
-	case 5:
+	switch {
+	case idx%18 == 5:
 		return p.specCase(w, idx, r)
-	case 4:
+	case idx%6 == 4:
 		return p.simpleCase(idx, r)
 	}
 	g := &gen.SchemaGen{R: r, O: gen.SchemaOpts{MaxDepth: 4, Refs: false, Defaults: true, SpecialNames: true, FormatAnyType: true}}
